@@ -366,6 +366,17 @@ def run_replay(kname, harness, ins, defs=None, harness_file='harness.c', shim_de
     return dict(reproduced=reproduced, rc=r['rc'], out=(r['out'][-1500:] + r['err'][-2500:]), cmd=' '.join(args))
 
 
+def source_tree_id():
+    """which tree the encoding was generated from: path, HEAD and whether the working tree differs from HEAD (checks always use the working tree)"""
+    root = os.path.dirname(INC.rstrip('/'))
+    try:
+        head = sh(['git', '-C', root, 'rev-parse', 'HEAD'], timeout=30)['out'].strip()
+        dirty = bool(sh(['git', '-C', root, 'status', '--porcelain', '--untracked-files=no'], timeout=60)['out'].strip())
+    except Exception:
+        head, dirty = 'unknown', None
+    return dict(path=root, head=head, working_tree_differs_from_head=dirty)
+
+
 # ------------------------------------------------------------------ property driver
 def load_known():
     p = os.path.join(ROOT, 'known_findings.json')
@@ -572,6 +583,7 @@ def check_property(pid, tier, seed, only_kernel=None, only_job=None, keep=False,
             stubs={kn: getattr(specs[kn], 'STUB_NOTES', []) for kn in specs},
             selftests=selftests,
             witness_inputs_replayed_natively=wit_native,
+            source_tree=source_tree_id(),
             not_decided=undecided,
             not_explored=not_explored,
             not_explored_rule='deep jobs (present only in the thorough tier) that gave no verdict within their time/memory budget: nothing is claimed for them, they are not counted in obligations/discharged, and they do not fail the run',
